@@ -28,6 +28,7 @@ CHECKS = {
     "C09": seq(["TestC09Seq"]),
     "C11": seq(["TestC11"], qchecks=60, tchecks=1500),
     "C12": seq(["TestC12"], qchecks=80, tchecks=1200),
+    "C13": seq(["TestC13", "TestC13Race"], qchecks=200, tchecks=4000, qshards=4),
     "C17": seq(["TestC17"]),
     "C18": seq(["TestC18Seq"]),
     "C19": seq(["TestC19"]),
